@@ -989,8 +989,10 @@ def _load_data_2(rec, context):
 @saver(Data, version=3)
 def _save_data_3(data, context):
     result = _save_data_2(data, context)
-    result['_key_joins'] = [[context.id(k), context.id(v0), context.id(v1)]
-                            for k, (v0, v1) in data._key_joins.items()]
+    # version 3 describes joins on a single component ID per dataset
+    result['_key_joins'] = [[context.id(k), context.id(v0[0]), context.id(v1[0])]
+                            for k, (v0, v1) in data._key_joins.items()
+                            if len(v0) == 1 and len(v1) == 1]
     return result
 
 
@@ -998,7 +1000,8 @@ def _save_data_3(data, context):
 def _load_data_3(rec, context):
     result = _load_data_2(rec, context)
     yield result
-    result._key_joins = dict((context.object(k), (context.object(v0), context.object(v1)))
+    # joins are now stored as tuples of component IDs
+    result._key_joins = dict((context.object(k), ((context.object(v0),), (context.object(v1),)))
                              for k, v0, v1 in rec['_key_joins'])
 
 
